@@ -150,6 +150,10 @@ type GenOptions struct {
 	QuiesceEvery int
 	NoTLS        bool
 	OnlyNS       string
+	// Avoid: generator constraints that keep the history away from the trigger
+	// of a known, recorded finding (see known_findings.json); each flag is tied
+	// to one finding, which is still demonstrated by its own replay file.
+	Avoid map[string]bool
 }
 
 var defaultHosts = []string{"app.local", "api.local", "*.wild.local", ""}
@@ -165,6 +169,7 @@ var defaultWeights = map[string]int{
 }
 
 type gen struct {
+	defBackendOK map[string]bool
 	rng *rand.Rand
 	opt GenOptions
 	// current model of the cluster as the generator sees it
@@ -234,7 +239,54 @@ func (g *gen) del(kind, key string) { delete(g.objs[kind], key) }
 
 func (g *gen) keys(kind string) []string { return sortedKeys(g.objs[kind]) }
 
+// sanitize enforces the Avoid constraints on an ingress about to be emitted.
+func (g *gen) sanitize(o client.Object) {
+	ing, ok := o.(*networking.Ingress)
+	if !ok || len(g.opt.Avoid) == 0 {
+		return
+	}
+	key := objKey(ing)
+	if g.opt.Avoid["unique_host_claims"] {
+		hosts := map[string]bool{}
+		for _, r := range ing.Spec.Rules {
+			hosts[r.Host] = true
+		}
+		for _, t := range ing.Spec.TLS {
+			for _, h := range t.Hosts {
+				hosts[h] = true
+			}
+		}
+		if ing.Spec.DefaultBackend != nil {
+			hosts[""] = true
+		}
+		for _, k := range []string{"redirect-from", "redirect-from-regex", "server-alias", "server-alias-regex"} {
+			if _, has := ing.Annotations[annPrefix+k]; !has {
+				continue
+			}
+			if len(hosts) != 1 {
+				delete(ing.Annotations, annPrefix+k)
+				continue
+			}
+			v := "claim-" + ing.Namespace + "-" + ing.Name + ".local"
+			if strings.HasSuffix(k, "regex") {
+				v = "^claim-" + ing.Namespace + "-" + ing.Name + "[0-9]+\\.local$"
+			}
+			ing.Annotations[annPrefix+k] = v
+		}
+	}
+	if g.opt.Avoid["no_new_default_backend"] {
+		if g.world != nil {
+			if ing.Spec.DefaultBackend != nil {
+				g.defBackendOK[key] = true
+			}
+		} else if ing.Spec.DefaultBackend != nil && !g.defBackendOK[key] {
+			ing.Spec.DefaultBackend = nil
+		}
+	}
+}
+
 func (g *gen) emit(o client.Object, note string) {
+	g.sanitize(o)
 	g.put(o)
 	if g.world != nil {
 		g.world.Objects = append(g.world.Objects, wobj(o))
@@ -483,7 +535,10 @@ func (g *gen) genGlobal(cur map[string]string, nchanges int) map[string]string {
 
 // GenerateRun builds world and history for a profile.
 func GenerateRun(seed uint64, opt GenOptions) (*World, []Op) {
-	g := &gen{rng: rand.New(rand.NewPCG(seed, 0x68617073696d)), opt: opt, objs: map[string]map[string]client.Object{}}
+	g := &gen{rng: rand.New(rand.NewPCG(seed, 0x68617073696d)), opt: opt, objs: map[string]map[string]client.Object{}, defBackendOK: map[string]bool{}}
+	if g.opt.Avoid == nil {
+		_, g.opt.Avoid = avoidFlags()
+	}
 	if g.opt.Hosts == nil {
 		g.opt.Hosts = defaultHosts
 	}
@@ -765,10 +820,8 @@ func (g *gen) genOp(name string) {
 			g.emit(mkConfigMap(globalConfigMapName, g.genGlobal(nil, 1+g.pick(2))), "create")
 			return
 		}
-		if g.chance(1, 12) {
-			g.emitDelete(KConfigMap, globalConfigMapName, "")
-			return
-		}
+		// the global ConfigMap is never deleted: a freshly started controller refuses to
+		// start without it (config.go reads it at start-up), so no reference state exists
 		ncm := mkConfigMap(globalConfigMapName, g.genGlobal(cur.Data, 1+g.pick(2)))
 		ncm.UID = cur.UID
 		g.emit(ncm, "global config")
@@ -784,6 +837,32 @@ func (g *gen) genOp(name string) {
 			g.emit(cur, "terminating")
 		} else {
 			g.emitDelete(KPod, objKey(cur), "terminated")
+			// the endpoints controller drops the address of a deleted pod
+			svcName := cur.Labels["app"]
+			epKey := cur.Namespace + "/" + svcName
+			if ep, ok := g.objs[KEndpoints][epKey].(*api.Endpoints); ok {
+				ne := ep.DeepCopy()
+				changed := false
+				for i := range ne.Subsets {
+					ss := &ne.Subsets[i]
+					filter := func(in []api.EndpointAddress) []api.EndpointAddress {
+						var out []api.EndpointAddress
+						for _, a := range in {
+							if a.TargetRef != nil && a.TargetRef.Name == cur.Name {
+								changed = true
+								continue
+							}
+							out = append(out, a)
+						}
+						return out
+					}
+					ss.Addresses = filter(ss.Addresses)
+					ss.NotReadyAddresses = filter(ss.NotReadyAddresses)
+				}
+				if changed {
+					g.emit(ne, "address of deleted pod removed")
+				}
+			}
 		}
 	case "class_change":
 		switch g.pick(4) {
